@@ -28,34 +28,51 @@ from fractions import Fraction as Fr
 import numpy as np
 from .. import common
 from ..common import enc, ask, HarnessError
+from .. import corethm
 
 LEVEL = "proof"
 RULE = ("histories of 0-12 operations over 2-4 shared operands (results are reused as operands); exact landscapes "
         "from real-constructor diagrams (0-5 bars per degree, ties, duplicates, zero-length bars, trailing inf bar) and "
         "from arbitrary critical points (1-4 depths, sign changes, repeated points, single-point depths); grid landscapes "
         "from real-constructor diagrams and from arbitrary value arrays on shared and on deliberately different grids; "
-        "coordinates lattice/half/dyadic(2^-20..2^20)/decimal/uniform; scalars ints, dyadic, 1/3, 2^+-20, 0, -0.0, "
+        "coordinates lattice/half/dyadic(2^-30..2^20)/half-integers at offset 2^17/decimal/uniform; scalars ints, dyadic, 1/3, 2^+-20, 0, -0.0, "
         "non-numbers; malformed operands mixed in (other hom_deg, other grid, empty depth list, empty landscape, "
         "coefficient lists of wrong length). non-trivial = a history with at least one successful binary operation or "
         "snap/lc/avg; distinct by digest of (leaf specs, ops)")
 ASSUMPTIONS = [
-    "scalars are Python int/float (numpy integer/float32 scalars and bool are dispatched by numpy/Python coercion rules and are not modelled)",
+    "scalars are Python int/float and the NumPy scalars np.float64 / np.int64 on either side (`np.float64(2) * P`, `P * np.int64(2)`); "
+    "np.int64 with GRID landscapes is not generated (PersLandscapeApprox.__mul__ tests isinstance(other, (int, float)), which a "
+    "NumPy integer fails: `P * np.int64(2)` raises TypeError while `np.int64(2) * P` goes through NumPy's object dispatch); "
+    "float32 scalars and bool are dispatched by numpy/Python coercion rules and are not modelled",
+    "operands untouched: every attribute of every live landscape is byte-compared before/after each operation and at the end of the "
+    "history.  For a leaf built with compute=False the attributes `critical_pairs`/`max_depth` are a cache that the first operation "
+    "fills; there the REPRESENTED FUNCTION is compared instead (stored critical pairs, or what the constructor computes from the "
+    "stored diagram while the cache is empty) together with all other attributes: filling the cache is not a change, a changed "
+    "function or diagram is",
     "ordinates of exact landscapes are floats (str * int would repeat the string instead of raising)",
-    "grid landscapes have a float `values` array of shape (depths, num_steps); the constructor's string placeholder "
-    "array(['empty']) (printed as 'Bad choice of grid') is outside the model and is not generated",
+    "grid landscapes have a float `values` array of shape (depths, num_steps); a diagram none of whose bars is visible on the "
+    "grid gives one zero row (generated on purpose: bars shorter than a step); a non-numeric `values` from the constructor "
+    "(the former string placeholder array(['empty'])) is reported as a violation with the arithmetic law that fails on it",
     "lc_approx on an empty product list returns the numpy scalar 0 rather than a landscape; the model calls that notLandscape "
     "(an empty landscape list together with non-numeric coefficients is numpy dtype resolution on empty arrays and is not generated)",
     "np.interp / np.linspace behave as the model's interp/linspace in exact arithmetic (compared on every snap)",
     "sharing of depth lists between a result of exact +/- and an operand (union_crit_pairs appends the operand's own "
     "list) is counted, not failed: no operation of the property mutates critical_pairs in place",
 ]
+TRUSTED = ["the compiled driver executable is trusted as compiled by Lean's compiler, not checked by the kernel"]
+# theorems that carry a clause of the property (helpers, the bridge lemmas between the two guards, definitional restatements
+# and the three concrete counterexamples are excluded)
+CORE_THEOREMS = ["sum_eval", "sum_wellFormed", "neg_eval", "smul_eval", "div_eval", "sub_eval", "scalar_wellFormed", "missing_depth_zero",
+                 "add_pointwise", "sub_pointwise", "neg_pointwise", "smul_pointwise", "div_pointwise", "exact_rejections", "expr_denote",
+                 "grid_add_pointwise", "grid_sub_pointwise", "grid_neg_pointwise", "grid_smul_pointwise", "grid_mismatch_rejected",
+                 "grid_sub_mismatch_rejected", "grid_expr_denote", "snap_is_interp", "snap_succeeds", "interp_is_linear_interpolation",
+                 "lc_is_combination", "average_is_mean"]
 TOL = 1e-9
 E_FILES = ["persim/landscapes/auxiliary.py", "persim/landscapes/exact.py", "persim/landscapes/approximate.py",
            "persim/landscapes/tools.py", "persim/landscapes/base.py"]
-# structural digest of the anchored functions on the reference tree (/repo at 9ea345a); a different digest is not a
+# structural digest of the anchored functions on the reference tree (/repo at 56d4899); a different digest is not a
 # violation, it only raises the quick budget for that run (DESIGN 3.2)
-ANCHOR_DIGEST = {'auxiliary': 'bc3772c38ec6fa78', 'exact': '99f0632332413c05', 'approximate': '0f8fb68d7e3281ea',
-                 'tools': 'b70bef56f7bb2a6b', 'base': '745f7ac02fc4f30e'}
+ANCHOR_DIGEST = {'auxiliary': 'bc3772c38ec6fa78', 'exact': '30b8b8be1c93da13', 'approximate': '0f8fb68d7e3281ea', 'tools': 'b70bef56f7bb2a6b', 'base': '745f7ac02fc4f30e'}
 
 
 # --------------------------------------------------------------------------- the real code
@@ -92,7 +109,8 @@ def build_leaf(spec):
     E, A, _ = _mods()
     k = spec["kind"]
     if k == "dgm":
-        return E(dgms=[np.array(d, dtype=float).reshape(-1, 2) for d in spec["dgms"]], hom_deg=spec["hom_deg"])
+        kw = {"compute": False} if spec.get("compute") is False else {}        # a lazy leaf: computed by the first operation
+        return E(dgms=[np.array(d, dtype=float).reshape(-1, 2) for d in spec["dgms"]], hom_deg=spec["hom_deg"], **kw)
     if k == "cps":
         return E(critical_pairs=[[list(p) for p in d] for d in spec["cps"]], hom_deg=spec["hom_deg"])
     if k == "gdgm":
@@ -110,10 +128,24 @@ def _gdgm(A, spec):
 
 
 def scalar_of(c):
-    """JSON-able scalar spec -> Python value"""
+    """JSON-able scalar spec -> the Python / NumPy value handed to the code"""
     if isinstance(c, dict):
+        if "np" in c:
+            return getattr(np, c["np"])(c["v"])                 # np.float64(2.0), np.int64(2)
         return {"str": "x", "none": None, "list": [1.0]}[c["nonnum"]]
     return c
+
+
+def is_number(c):
+    """a real scalar of the property's quantifier: Python int/float or a NumPy float64/int64 scalar"""
+    v = scalar_of(c)
+    return isinstance(v, (int, float, np.floating, np.integer)) and not isinstance(v, (bool, np.bool_))
+
+
+def num_of(c):
+    """the scalar as a plain Python number (for the oracles and the model line)"""
+    v = scalar_of(c)
+    return int(v) if isinstance(v, (int, np.integer)) else float(v)
 
 
 def prepare(regs, op):
@@ -165,6 +197,8 @@ def containers_view(cs):
 def op_token(op):
     """history op -> protocol token (rmul is the same model function as mul)"""
     def sc(c):
+        if isinstance(c, dict) and "np" in c:
+            return enc(num_of(c))
         if isinstance(c, dict):
             return {"str": "x", "none": "none", "list": "[1]"}[c["nonnum"]]
         return enc(c)
@@ -204,8 +238,15 @@ def _deep(o):
     return _atom(o)
 
 
-def snapshot(pl):
-    """every attribute of a landscape object, values and container types, as a comparable tree"""
+def snapshot(pl, lazy=False):
+    """every attribute of a landscape object, values and container types, as a comparable tree.
+    `lazy` (a leaf built with compute=False): the first operation computes the landscape and stores it in the operand
+    (`critical_pairs`, `max_depth`) — that fills a cache and does not change the function the operand represents.  For such a
+    leaf the cache attributes are replaced by the represented function itself (`cps_of`: the stored critical pairs, or what
+    the constructor computes from the stored diagram while the cache is empty); every other attribute is still compared."""
+    if lazy:
+        items = [(k, _deep(v)) for k, v in sorted(vars(pl).items()) if k not in ("critical_pairs", "max_depth")]
+        return tuple(items) + (("represented_function", _deep(cps_of(pl))),)
     return tuple((k, _deep(v)) for k, v in sorted(vars(pl).items()))
 
 
@@ -213,9 +254,28 @@ def is_exact(pl):
     return hasattr(pl, "critical_pairs")
 
 
+def is_exact_obj(x):
+    return hasattr(x, "critical_pairs") and hasattr(x, "hom_deg")
+
+
+def numeric_cps(pl):
+    return all(isinstance(p[1], (int, float, np.integer, np.floating)) and not isinstance(p[1], bool)
+               for d in pl.critical_pairs for p in d)
+
+
 def cps_of(pl):
-    """critical pairs as nested lists of Python floats (ints become floats)"""
-    return [[[float(p[0]), float(p[1])] for p in d] for d in pl.critical_pairs]
+    """the function an exact landscape represents, as critical pairs (nested lists of Python floats; ints become floats):
+    the stored critical pairs, or — for a landscape built with compute=False whose cache is still empty — what the real
+    constructor computes from the stored diagram (on a copy; the object itself is not touched)"""
+    cps = pl.critical_pairs
+    if not cps and len(getattr(pl, "dgms", ())) > 0:
+        E = common.pm("landscapes.exact").PersLandscapeExact
+        try:
+            with np.errstate(all="ignore"):
+                cps = E(dgms=[np.array(pl.dgms, dtype=float, copy=True).reshape(-1, 2)], hom_deg=0).critical_pairs
+        except Exception:
+            cps = []
+    return [[[float(p[0]), float(p[1])] for p in d] for d in cps]
 
 
 def grid_of(pl):
@@ -302,7 +362,7 @@ def pointwise_exact(op, regs_cps, res_cps, exact, cap=60):
     R = frac_cps(res_cps)
     c = None
     if name in ("mul", "rmul", "div"):
-        c = Fr(scalar_of(op[2]))
+        c = Fr(num_of(op[2]))
     pts = sample_points([A, R] + ([B] if B is not None else []))
     if len(pts) > cap:
         step = len(pts) / float(cap)
@@ -331,18 +391,121 @@ def pointwise_exact(op, regs_cps, res_cps, exact, cap=60):
     return None
 
 
+# --------------------------------------------------------------------------- known finding: slope representation
+KNOWN_KEY = "slope-representation-starts-at-zero"
+KNOWN_SITE = "site=persim/landscapes/auxiliary.py:slope-representation-starts-at-zero"
+KNOWN_HIST = {"cls": "exact", "mode": "lattice", "exact": True, "nonzero_ends": True,
+              "leaves": [{"kind": "cps", "cps": [[[0.0, 1.0], [2.0, 1.0]]], "hom_deg": 0},
+                         {"kind": "cps", "cps": [[[0.0, 0.0], [1.0, 1.0], [2.0, 0.0]]], "hom_deg": 0}],
+              "ops": [["add", 0, 1]]}
+
+
+def known_listed():
+    return [t for k, t in common.known_findings("C09") if k == "known" and KNOWN_SITE in t]
+
+
+def known_text(kf):
+    return (KNOWN_SITE + " still fails: PersLandscapeExact(critical_pairs=[[[0,1],[2,1]]]) + "
+            "PersLandscapeExact(critical_pairs=[[[0,0],[1,1],[2,0]]]) returns [[0,0],[1,1],[2,0]] instead of a function equal to "
+            "1 + tent (exact +/- restart every depth at ordinate 0 and keep the last value to the right: critical points whose "
+            "first or last ordinate is not 0 lose that offset); listed in known_findings.txt" + ("" if kf else " [NOT LISTED]"))
+
+
+def slope_rep_part(d, t):
+    """what pos_to_slope_interp / slope_to_pos_interp keep of one depth list (an independent description of the known
+    defect, not of the code): the function restarted at ordinate 0 at its first abscissa and continued with slope 0, i.e.
+    constant, to the right of its last abscissa"""
+    if len(d) < 2 or t < d[0][0]:
+        return Fr(0)
+    if t > d[-1][0]:
+        return d[-1][1] - d[0][1]
+    return evalpl(d, t) - d[0][1]
+
+
+def slope_rep_attribution(op, regs_cps, res_cps, exact):
+    """A failing exact + / -: is it the known finding?  Yes iff some depth present in both operands has a non-zero first or
+    last ordinate AND the code's result is, at every sample point, exactly what the slope representation keeps (the sum of
+    the restarted parts between the smallest and the largest abscissa, 0 outside).  Returns 'first' / 'last_only' / None."""
+    name = op[0]
+    if name not in ("add", "sub"):
+        return None
+    A, B, R = frac_cps(regs_cps[op[1]]), frac_cps(regs_cps[op[2]]), frac_cps(res_cps)
+    if name == "sub":
+        B = [[(x, -y) for x, y in d] for d in B]
+    both = [(a, b) for a, b in zip(A, B) if a and b]
+    first = any(d[0][1] != 0 for a, b in both for d in (a, b))
+    last = any(d[-1][1] != 0 for a, b in both for d in (a, b))
+    if not (first or last):
+        return None
+    scale = max([abs(p[1]) for cps in (A, B, R) for d in cps for p in d] + [Fr(1)])
+    tol = Fr(0) if exact else Fr(TOL) * scale
+    pts = sample_points([A, B, R])
+    for k in range(max(len(A), len(B), len(R)) + 1):
+        a, b, r_ = depth_fn(A, k), depth_fn(B, k), depth_fn(R, k)
+        for t in pts:
+            if a and b:
+                xs_ = [p[0] for p in a] + [p[0] for p in b]
+                want = slope_rep_part(a, t) + slope_rep_part(b, t) if min(xs_) <= t <= max(xs_) else Fr(0)
+            else:
+                want = evalpl(a, t) + evalpl(b, t)          # a depth missing in one operand is taken over unchanged
+            if abs(evalpl(r_, t) - want) > tol:
+                return None
+    return "first" if first else "last_only"
+
+
+def known_replay(ctx):
+    """replay the listed input on the real code; while it still fails print the KNOWN-FINDING line"""
+    kf = known_listed()
+    with np.errstate(all="ignore"):
+        regs = [build_leaf(sp) for sp in KNOWN_HIST["leaves"]]
+        try:
+            res = apply_op(regs, KNOWN_HIST["ops"][0])
+            rc = cps_of(res)
+            bad = pointwise_exact(KNOWN_HIST["ops"][0], [cps_of(p) for p in regs], rc, True)
+            why = slope_rep_attribution(KNOWN_HIST["ops"][0], [cps_of(p) for p in regs], rc, True) if bad else None
+        except Exception as e:
+            bad, why, rc = {"raised": errtag(e)}, None, None
+    ctx.extra["known_finding_still_fails"] = bool(bad)
+    ctx.extra["known_finding_result"] = rc
+    if bad and why:
+        if kf:
+            ctx.known(KNOWN_KEY, known_text(kf))
+        else:
+            ctx.violation("exact + loses a non-zero first ordinate and this is not listed in known_findings.txt: %r" % (bad,),
+                          {"history": jsonable_hist(KNOWN_HIST), "failure": {"law": "pointwise", "op_index": 0, "at": bad}},
+                          found_input=True, reproducer=reproducer(KNOWN_HIST))
+    elif bad:
+        ctx.violation("the listed input of the known finding fails in another way than by losing the end ordinates: %r" % (bad,),
+                      {"history": jsonable_hist(KNOWN_HIST), "failure": {"law": "pointwise", "op_index": 0, "at": bad}},
+                      found_input=True, reproducer=reproducer(KNOWN_HIST))
+    else:
+        print("note: the listed known finding of C09 no longer reproduces on this tree", flush=True)
+    return kf
+
+
+def known_filter(ctx, op, regs_cps, res_cps, exact, bad):
+    """a failing pointwise law: None if it is the known finding (counted, KNOWN-FINDING line), else the failure itself"""
+    if not bad or ctx is None:
+        return bad
+    why = slope_rep_attribution(op, regs_cps, res_cps, exact)
+    if why and known_listed():
+        ctx.count("known_finding:attributed:%s_ordinate_nonzero:%s" % (why, op[0]))
+        ctx.known(KNOWN_KEY, known_text(True))
+        return None
+    return bad
+
+
 def expected_rejection_exact(op, regs):
     """the rejections the statement names (mismatched degree, zero divisor, non-number), written independently"""
     name = op[0]
     if name in ("add", "sub") and regs[op[1]].hom_deg != regs[op[2]].hom_deg:
         return "ValueError"
     if name == "div":
-        c = scalar_of(op[2])
-        if isinstance(c, (int, float)) and c == 0:
+        if is_number(op[2]) and num_of(op[2]) == 0:
             return "ValueError"
-        if not isinstance(c, (int, float)):
+        if not is_number(op[2]):
             return "TypeError"
-    if name in ("mul", "rmul") and not isinstance(scalar_of(op[2]), (int, float)):
+    if name in ("mul", "rmul") and not is_number(op[2]):
         return "TypeError"
     return None
 
@@ -379,13 +542,19 @@ EXACT_DIVISORS = [1, -1, 2, -2, 0.5, 4, 0.25, -4.0]
 NONNUM = [{"nonnum": "str"}, {"nonnum": "none"}, {"nonnum": "list"}]
 
 
-def gen_scalar(ctx, exact, div=False, bad_p=0.08):
+def gen_scalar(ctx, exact, div=False, bad_p=0.08, np_ok=False):
     r = ctx.rng
     u = r.random()
     if u < bad_p:
         return r.choice(NONNUM)
     if div and u < bad_p + 0.06:
         return r.choice([0, 0.0, -0.0])
+    if u < bad_p + 0.06 + 0.1 and np_ok:
+        # NumPy scalars (`np.float64(2) * P`, `P * np.int64(2)`): real scalars of the property's quantifier
+        v = r.choice(EXACT_DIVISORS if div else EXACT_SCALARS) if exact else r.choice([2.0, -0.5, 3.0, 0.1, 1.0 / 3.0, -4.0])
+        if np_ok == "float64-only" or float(v) != int(v) or r.random() < 0.5:
+            return {"np": "float64", "v": float(v)}
+        return {"np": "int64", "v": int(v)}
     if exact:
         return r.choice(EXACT_DIVISORS if div else EXACT_SCALARS)
     return r.choice([r.uniform(-3, 3), float(r.randint(-5, 5)) or 1.5, r.randint(-4, 4) or 7, 1.0 / 3.0, 0.1,
@@ -395,14 +564,17 @@ def gen_scalar(ctx, exact, div=False, bad_p=0.08):
 def pick_mode(ctx):
     """coordinate mode of a history and whether every float operation on it is expected to be exact"""
     r = ctx.rng
-    mode = r.choice(["lattice", "lattice", "half", "dyadic1", "dec", "unif", "dyadic"])
-    return mode, mode in ("lattice", "half", "dyadic1")
+    mode = r.choice(["lattice", "lattice", "half", "dyadic1", "dyadic1", "far", "dec", "unif", "dyadic"])
+    return mode, mode in ("lattice", "half", "dyadic1", "far")
 
 
 def coord(ctx, mode, e=None):
     r = ctx.rng
     if mode == "dyadic1":
         return r.randint(-64, 64) / 8.0 * 2.0 ** e
+    if mode == "far":
+        # half-integers at a large offset (exact in floats): distinct abscissae that agree to 5-6 significant digits
+        return 131072.0 + r.randint(0, 12) / 2.0
     return ctx.gen.coord(mode)
 
 
@@ -434,16 +606,22 @@ def gen_dgm_leaf(ctx, mode, e, hom_deg):
     dgms = [gen_bars(ctx, mode, e), gen_bars(ctx, mode, e)]
     if r.random() < 0.15:
         dgms[hom_deg].append([coord(ctx, mode, e), math.inf])     # only a trailing infinite bar is dropped by the code
-    return {"kind": "dgm", "dgms": dgms, "hom_deg": hom_deg}
+    spec = {"kind": "dgm", "dgms": dgms, "hom_deg": hom_deg}
+    if r.random() < 0.25:
+        spec["compute"] = False             # a lazy leaf: the first operation that needs it computes the landscape
+    return spec
 
 
 def tent(b, d, t):
     return max(Fr(0), min(t - b, d - t))
 
 
-def gen_cps_leaf(ctx, mode, e, hom_deg, exact):
+def gen_cps_leaf(ctx, mode, e, hom_deg, exact, nonzero_ends=False):
     """arbitrary critical points: strictly increasing abscissae, zero ends, any sign; sometimes repeated
-    points (what zero-length bars produce) and single-point depths (what adding two such depths gives)"""
+    points (what zero-length bars produce) and single-point depths (what adding two such depths gives).
+    `nonzero_ends`: hand-made critical points OUTSIDE the class the theorems are about — the first and/or last
+    ordinate is not 0 (a constant offset on a whole depth, or the first / last / both end points dropped, so that
+    slopes stay dyadic on exact histories)"""
     r = ctx.rng
     cps = []
     for _ in range(r.randint(1, 4)):
@@ -478,14 +656,24 @@ def gen_cps_leaf(ctx, mode, e, hom_deg, exact):
         if r.random() < 0.2:            # repeat one point
             i = r.randrange(len(d_))
             d_.insert(i, list(d_[i]))
+        if nonzero_ends and r.random() < 0.8:
+            how = r.choice(["offset", "offset", "drop_first", "drop_last", "drop_both"])
+            if how == "offset":
+                c = r.choice([1.0, -1.0, 2.0, 0.5, -1.5, 3.0]) * (2.0 ** e if mode == "dyadic1" else 1.0)
+                d_ = [[p[0], p[1] + c] for p in d_]
+            else:
+                if how in ("drop_first", "drop_both") and len(d_) >= 3:
+                    d_ = d_[1:]
+                if how in ("drop_last", "drop_both") and len(d_) >= 3:
+                    d_ = d_[:-1]
         cps.append(d_)
     return {"kind": "cps", "cps": cps, "hom_deg": hom_deg}
 
 
-def gen_exact_history(ctx):
+def gen_exact_history(ctx, nonzero_ends=False):
     r = ctx.rng
     mode, exact = pick_mode(ctx)
-    e = r.choice([-20, -3, 0, 0, 3, 20])
+    e = r.choice([-30, -20, -3, 0, 0, 3, 20])
     nleaves = r.randint(2, 4)
     leaves = []
     for i in range(nleaves):
@@ -494,7 +682,7 @@ def gen_exact_history(ctx):
         if u < 0.5:
             leaves.append(gen_dgm_leaf(ctx, mode, e, hd))
         elif u < 0.97:
-            leaves.append(gen_cps_leaf(ctx, mode, e, hd, exact))
+            leaves.append(gen_cps_leaf(ctx, mode, e, hd, exact, nonzero_ends=nonzero_ends))
         elif u < 0.985:
             leaves.append({"kind": "dgm", "dgms": [[[coord(ctx, mode, e), math.inf]], []], "hom_deg": 0})  # empty landscape
         else:
@@ -510,9 +698,9 @@ def gen_exact_history(ctx):
         elif kind == "neg":
             ops.append([kind, pick()])
         else:
-            ops.append([kind, pick(), gen_scalar(ctx, exact, div=(kind == "div"))])
+            ops.append([kind, pick(), gen_scalar(ctx, exact, div=(kind == "div"), np_ok=True)])
         nreg += 1       # optimistic; fixed up while running (an op that raises adds no register)
-    return {"cls": "exact", "mode": mode, "exact": exact, "leaves": leaves, "ops": ops}
+    return {"cls": "exact", "mode": mode, "exact": exact, "leaves": leaves, "ops": ops, "nonzero_ends": nonzero_ends}
 
 
 def gen_grid_params(ctx, mode, e, exact):
@@ -548,16 +736,28 @@ def gen_vals_leaf(ctx, mode, e, hom_deg, grid, exact):
             "values": [[v() for _ in range(n)] for _ in range(k)]}
 
 
-def gen_gdgm_leaf(ctx, mode, e, hom_deg, grid):
+def gen_gdgm_leaf(ctx, mode, e, hom_deg, grid, short=False):
+    """a grid landscape built by the real constructor from diagrams.  `short`: every bar of the selected degree is shorter
+    than a grid step, so no bar is visible on the grid and the landscape is the zero function with ONE zero row
+    (/repo fix 357d745; before it `values` was the string placeholder ['empty'] and arithmetic on it raised)"""
+    r = ctx.rng
     s, t, n = grid
+    n = max(n, 3)
     dgms = [gen_bars(ctx, mode, e, diag_p=0.0), gen_bars(ctx, mode, e, diag_p=0.0)]
-    return {"kind": "gdgm", "dgms": dgms, "hom_deg": hom_deg, "start": s, "stop": t, "num_steps": max(n, 3)}
+    if short:
+        step = (t - s) / (n - 1)
+        bars = []
+        for _ in range(r.randint(1, 4)):
+            b = s + r.randint(0, 4 * (n - 1) - 3) * step / 4.0
+            bars.append([b, b + r.choice([0.25, 0.5, 0.75]) * step])
+        dgms[hom_deg] = bars
+    return {"kind": "gdgm", "dgms": dgms, "hom_deg": hom_deg, "start": s, "stop": t, "num_steps": n}
 
 
 def gen_grid_history(ctx):
     r = ctx.rng
     mode, exact = pick_mode(ctx)
-    e = r.choice([-20, -3, 0, 0, 3, 20])
+    e = r.choice([-30, -20, -3, 0, 0, 3, 20])
     g0 = gen_grid_params(ctx, mode, e, exact)
     nleaves = r.randint(2, 4)
     leaves = []
@@ -574,17 +774,9 @@ def gen_grid_history(ctx):
             grid = (grid[0], g1[1] if which[1] and g1[1] >= grid[0] else t, g1[2] if which[2] else n)
         spec = None
         if r.random() < 0.35 and grid[1] > grid[0]:
-            for _ in range(4):      # the constructor's 'Bad choice of grid' placeholder is not a landscape: draw again
-                cand = gen_gdgm_leaf(ctx, mode, e, hd, grid)
-                try:
-                    with np.errstate(all="ignore"):
-                        ok = np.asarray(build_leaf(cand).values).dtype.kind == "f"
-                except Exception:
-                    ok = False
-                if ok:
-                    spec = cand
-                    break
-                ctx.count("gen:grid_placeholder_redrawn")
+            # nothing is redrawn: a grid on which no bar is visible gives the zero function (one zero row) and takes part
+            # in the history like every other landscape
+            spec = gen_gdgm_leaf(ctx, mode, e, hd, grid, short=r.random() < 0.3)
         leaves.append(spec or gen_vals_leaf(ctx, mode, e, hd, grid, exact))
     nops = r.randint(0, 12)
     ops = []
@@ -597,7 +789,8 @@ def gen_grid_history(ctx):
         elif kind == "neg":
             ops.append([kind, pick()]); nreg += 1
         elif kind in ("mul", "rmul", "div"):
-            ops.append([kind, pick(), gen_scalar(ctx, exact, div=(kind == "div"))]); nreg += 1
+            # grid landscapes check isinstance(other, (int, float)): np.float64 is a float; np.int64 is not generated here
+            ops.append([kind, pick(), gen_scalar(ctx, exact, div=(kind == "div"), np_ok="float64-only")]); nreg += 1
         else:
             m = r.choice([0, 1, 1, 2, 2, 3, 4]) if r.random() < 0.5 else r.randint(1, 3)
             idxs = [pick() for _ in range(m)]
@@ -639,6 +832,8 @@ class Run:
         self.touched_at = None
         self.shared = 0
         self.leaf_error = None
+        self.lazy_leaves = 0
+        self.outside = None        # why the history was cut short (an operation outside the model), if it was
         self.reg_exact = []        # per register: is every float operation behind it exact?
         self.op_exact = []         # per op: exactness of its result(s)
 
@@ -655,9 +850,13 @@ def run_history(hist, ctx=None):
             return run
         for pl in run.regs:
             if not is_exact(pl) and np.asarray(pl.values).dtype.kind != "f":
+                # not a landscape the arithmetic can be run on; `run` reports it (placeholder_violation)
                 run.leaf_error = "placeholder-values"
                 return run
-        first = [snapshot(p) for p in run.regs]
+        lazy = [sp.get("kind") == "dgm" and sp.get("compute") is False for sp in hist["leaves"]]
+        snaps = lambda: [snapshot(p, i < len(lazy) and lazy[i]) for i, p in enumerate(run.regs)]
+        run.lazy_leaves = sum(lazy)
+        first = snaps()
         run.reg_exact = [bool(hist["exact"])] * len(run.regs)
         for op in hist["ops"]:
             op = clamp(op, len(run.regs))
@@ -665,17 +864,25 @@ def run_history(hist, ctx=None):
             run.op_exact.append(result_exact(run, op))
             thunk, conts = prepare(run.regs, op)
             cview = containers_view(conts)
-            before = [snapshot(p) for p in run.regs]
+            before = snaps()
             try:
                 res = thunk()
                 out = None
             except Exception as e:
                 res, out = None, ("err", errtag(e))
-            after = [snapshot(p) for p in run.regs]
+            after = snaps()[:len(before)]
             if before != after or cview != containers_view(conts):
                 if run.untouched:
                     run.touched_at = len(run.ops) - 1
                 run.untouched = False
+            if out is None and is_exact_obj(res) and not numeric_cps(res):
+                # a non-number scalar met only Python-int ordinates (`[1.0] * 0 == []`, `"x" * 0 == ""`): no exception, a
+                # landscape with non-numeric ordinates.  Non-number scalars are outside the property's quantifier ("all real
+                # scalars") and this case is outside the model (ASSUMPTIONS): the history ends before this operation.
+                run.ops.pop()
+                run.op_exact.pop()
+                run.outside = "nonnumber_scalar_times_integer_ordinates"
+                break
             if out is None:
                 new = list(res) if isinstance(res, list) else [res]
                 if any(not (hasattr(x, "hom_deg")) for x in new):
@@ -688,7 +895,7 @@ def run_history(hist, ctx=None):
                     run.reg_exact.extend([run.op_exact[-1]] * len(new))
                     out = ("ok", idx, isinstance(res, list))
             run.outcomes.append(out)
-        last = [snapshot(p) for p in run.regs[:len(first)]]
+        last = snaps()[:len(first)]
         if last != first:
             run.untouched = False
             if run.touched_at is None:
@@ -763,7 +970,22 @@ def hist_line(run, leaf_canon):
                            ",".join(op_token(o) for o in run.ops))
 
 
-def cmp_exact(code, model, exact):
+def hist_scale(run):
+    """largest finite magnitude of any ordinate / sample of any register of the history: the model replays the WHOLE history
+    from the leaves in exact arithmetic, so the code's rounding error in a late register is relative to the largest
+    intermediate value (e.g. (P - 1e9 Q) + (1e9 Q + R) cancels two terms of size 1e9), not to that register's own size"""
+    m = 1.0
+    for p in run.regs:
+        if is_exact(p):
+            vals = [abs(float(q[1])) for d in p.critical_pairs for q in d]
+        else:
+            v = np.asarray(p.values)
+            vals = np.abs(v.astype(float)).ravel().tolist() if v.dtype.kind in "fiu" else []
+        m = max([m] + [x for x in vals if math.isfinite(x)])
+    return m
+
+
+def cmp_exact(code, model, exact, scale0=1.0):
     """code: [hom_deg, cps(float)], model: [hom_deg, cps(Fraction)]"""
     if not isinstance(model, list) or len(model) != 2:
         return "model answered %r" % (model,)
@@ -771,7 +993,7 @@ def cmp_exact(code, model, exact):
         return "hom_deg %r vs %r" % (code[0], model[0])
     if len(code[1]) != len(model[1]):
         return "depth count %d vs %d" % (len(code[1]), len(model[1]))
-    scale = max([abs(p[1]) for d in code[1] for p in d if math.isfinite(p[1])] + [1.0])
+    scale = max([abs(p[1]) for d in code[1] for p in d if math.isfinite(p[1])] + [1.0, scale0])
     for k, (dc, dm) in enumerate(zip(code[1], model[1])):
         if len(dc) != len(dm):
             return "depth %d: %d points vs %d" % (k, len(dc), len(dm))
@@ -788,7 +1010,7 @@ def cmp_exact(code, model, exact):
     return None
 
 
-def cmp_grid(code, model, exact):
+def cmp_grid(code, model, exact, scale0=1.0):
     if not isinstance(model, list) or len(model) != 5:
         return "model answered %r" % (model,)
     for name, i in (("hom_deg", 0), ("start", 1), ("stop", 2), ("num_steps", 3)):
@@ -797,7 +1019,7 @@ def cmp_grid(code, model, exact):
     vc, vm = code[4], model[4]
     if len(vc) != len(vm):
         return "rows %d vs %d" % (len(vc), len(vm))
-    scale = max([abs(x) for row in vc for x in row if math.isfinite(x)] + [1.0])
+    scale = max([abs(x) for row in vc for x in row if math.isfinite(x)] + [1.0, scale0])
     for k, (rc, rm) in enumerate(zip(vc, vm)):
         if len(rc) != len(rm):
             return "row %d: %d samples vs %d" % (k, len(rc), len(rm))
@@ -869,7 +1091,7 @@ def grid_law(op, regs, res, exact):
         keep = regs[op[1]]
         if (res.start, res.stop, res.num_steps, res.hom_deg) != (keep.start, keep.stop, keep.num_steps, keep.hom_deg):
             return {"grid": [res.start, res.stop, res.num_steps, res.hom_deg]}
-        c = scalar_of(op[2]) if name in ("mul", "rmul", "div") else None
+        c = num_of(op[2]) if name in ("mul", "rmul", "div") else None
         for k in range(rows + 1):
             for j in range(len(a[0])):
                 va = gval(a, k, j)
@@ -954,12 +1176,11 @@ def expected_rejection_grid(op, regs):
         if a.hom_deg != b.hom_deg or a.start != b.start or a.stop != b.stop or a.num_steps != b.num_steps:
             return "ValueError"
     if name == "div":
-        c = scalar_of(op[2])
-        if isinstance(c, (int, float)) and c == 0:
+        if is_number(op[2]) and num_of(op[2]) == 0:
             return "ValueError"
-        if not isinstance(c, (int, float)):
+        if not is_number(op[2]):
             return "TypeError"
-    if name in ("mul", "rmul") and not isinstance(scalar_of(op[2]), (int, float)):
+    if name in ("mul", "rmul") and not is_number(op[2]):
         return "TypeError"
     return None
 
@@ -1011,8 +1232,10 @@ def check_laws(ctx, run):
                     fails.append({"op_index": i, "op": op, "law": "result of finite operands must be finite (got NaN/inf)",
                                   "at": canon_reg(new[0]) if is_exact(new[0]) else "values"})
             elif hist["cls"] == "exact":
-                bad = pointwise_exact(op, regs_cps, cps_of(res), run.op_exact[i])
-                ctx.test("pointwise_exact", bad is None)
+                bad0 = pointwise_exact(op, regs_cps, cps_of(res), run.op_exact[i])
+                bad = known_filter(ctx, op, regs_cps, cps_of(res), run.op_exact[i], bad0)
+                if bad0 is None or bad is not None:      # failures that ARE the known finding are counted, not tested
+                    ctx.test("pointwise_exact", bad is None)
                 if bad:
                     fails.append({"op_index": i, "op": op, "law": "pointwise", "at": bad})
             elif name == "snap":
@@ -1022,7 +1245,7 @@ def check_laws(ctx, run):
                     fails.append({"op_index": i, "op": op, "law": "snap", "at": bad})
             elif name in ("lc", "avg"):
                 pls = [regs[j] for j in op[1]]
-                cs = [scalar_of(c) for c in op[2]] if name == "lc" else [1.0 / len(pls)] * len(pls)
+                cs = [num_of(c) if is_number(c) else scalar_of(c) for c in op[2]] if name == "lc" else [1.0 / len(pls)] * len(pls)
                 s, t, n = (op[3], op[4], op[5]) if name == "lc" else (op[2], op[3], op[4])
                 bad = lc_law(tl, pls, cs, s, t, n, res)
                 ctx.test("lc_is_combination" if name == "lc" else "average_is_mean", bad is None)
@@ -1037,6 +1260,47 @@ def check_laws(ctx, run):
                 regs.append(x)
                 regs_cps.append(cps_of(x) if is_exact(x) else None)
     return fails
+
+
+def placeholder_violation(ctx, hist):
+    """A grid landscape built by the real constructor from a diagram has non-numeric `values` (the string placeholder
+    ['empty'] of the code before /repo 357d745, when no bar is visible on the grid).  Such a landscape is the zero function;
+    the statement's laws are evaluated on it: P + Q = Q, 2 * P = 0, snap_pl([P]) = 0.  Reports the first law that fails."""
+    E, A, tl = _mods()
+    for spec in hist["leaves"]:
+        if spec["kind"] != "gdgm":
+            continue
+        with contextlib.redirect_stdout(io.StringIO()), np.errstate(all="ignore"):
+            P = build_leaf(spec)
+            if np.asarray(P.values).dtype.kind == "f":
+                continue
+            n = int(P.num_steps)
+            ones = {"kind": "vals", "start": float(P.start), "stop": float(P.stop), "num_steps": n, "hom_deg": int(P.hom_deg),
+                    "values": [[1.0] * n]}
+            Q = build_leaf(ones)
+            probes = [("P + Q (Q = the constant sample vector 1 on the same grid)", lambda: (P + Q).values, [[1.0] * n]),
+                      ("Q - P", lambda: (Q - P).values, [[1.0] * n]),
+                      ("2 * P", lambda: (2 * P).values, [[0.0] * n]),
+                      ("snap_pl([P])", lambda: tl.snap_pl([P])[0].values, [[0.0] * n])]
+            failure = None
+            for what, thunk, want in probes:
+                try:
+                    got = np.asarray(thunk())
+                    if got.dtype.kind != "f" or got.tolist() != want:
+                        failure = "%s = %r instead of %r" % (what, got.tolist(), want)
+                except Exception as e:
+                    failure = "%s raised %s" % (what, errtag(e))
+                if failure:
+                    break
+        ctx.test("grid_landscape_without_visible_bar_is_zero_function", failure is None)
+        h2 = {"cls": "grid", "mode": hist["mode"], "exact": hist["exact"], "leaves": [spec, ones],
+              "ops": [["add", 0, 1], ["sub", 1, 0], ["rmul", 0, 2], ["snap", [0], None, None, None]]}
+        ctx.violation("a grid landscape whose bars are all invisible on the grid (values = %r) does not behave as the zero "
+                      "function: %s" % (np.asarray(P.values).tolist(), failure or "values is not a float array"),
+                      {"history": jsonable_hist(h2), "failure": {"law": "zero function with one zero row", "op_index": 0,
+                                                                 "values": np.asarray(P.values).tolist(), "probe": failure}},
+                      found_input=True, reproducer=reproducer(h2))
+        return
 
 
 def reproducer(hist, upto=None):
@@ -1089,6 +1353,8 @@ def process(ctx, runs):
                 if run.hist["cls"] == "exact":
                     lines.append("pla.xexpr %s %s" % (enc(leaf_canon), tree))
                     meta.append(("xexpr", run, target))
+                    if not all(wf_landscape_py(p) for p in run.regs[:len(run.hist["leaves"])]):
+                        continue        # `denote` is the pointwise expression: only claimed for well-formed leaves (known finding)
                     cps = frac_cps(cps_of(run.regs[target]))
                     k = ctx.rng.randrange(len(cps) + 1)
                     pts = sample_points([cps] + [frac_cps(c[1]) for c in leaf_canon])
@@ -1107,6 +1373,7 @@ def process(ctx, runs):
     for (kind, run, extra), ans, line in zip(meta, answers, lines):
         hist = run.hist
         problems = []
+        hs = hist_scale(run)
         if ans == "bad-op":
             raise HarnessError("driver rejected the line %s" % line[:300])
         if kind == "hist":
@@ -1126,27 +1393,27 @@ def process(ctx, runs):
                     problems.append((i, "code returned a landscape, model answered %s" % m))
                     continue
                 if hist["cls"] == "exact":
-                    d = cmp_exact(canon_reg(run.regs[out[1][0]]), m, exact)
+                    d = cmp_exact(canon_reg(run.regs[out[1][0]]), m, exact, hs)
                 elif out[2]:
                     if m[0] != "many" or len(m[1]) != len(out[1]):
                         d = "snap_pl returned %d landscapes, model %s" % (len(out[1]), str(m)[:80])
                     else:
                         d = None
                         for ri, mm in zip(out[1], m[1]):
-                            d = d or cmp_grid(canon_reg(run.regs[ri]), mm, exact)
+                            d = d or cmp_grid(canon_reg(run.regs[ri]), mm, exact, hs)
                 else:
-                    d = cmp_grid(canon_reg(run.regs[out[1][0]]), m[1], exact) if m[0] == "one" else "model answered %s" % str(m)[:80]
+                    d = cmp_grid(canon_reg(run.regs[out[1][0]]), m[1], exact, hs) if m[0] == "one" else "model answered %s" % str(m)[:80]
                 if d:
                     problems.append((i, d))
         elif kind == "xexpr":
             exact = run.reg_exact[extra]
-            d = cmp_exact(canon_reg(run.regs[extra]), ans, exact) if not isinstance(ans, str) else "run answered %s" % ans
+            d = cmp_exact(canon_reg(run.regs[extra]), ans, exact, hs) if not isinstance(ans, str) else "run answered %s" % ans
             ctx.count("expr_trees")
             if d:
                 problems.append((len(run.ops) - 1, "expression tree (run): " + d))
         elif kind == "gexpr":
             exact = run.reg_exact[extra]
-            d = cmp_grid(canon_reg(run.regs[extra]), ans, exact) if not isinstance(ans, str) else "runG answered %s" % ans
+            d = cmp_grid(canon_reg(run.regs[extra]), ans, exact, hs) if not isinstance(ans, str) else "runG answered %s" % ans
             ctx.count("expr_trees")
             if d:
                 problems.append((len(run.ops) - 1, "expression tree (runG): " + d))
@@ -1154,7 +1421,7 @@ def process(ctx, runs):
             target, k, pts = extra
             exact = run.reg_exact[target]
             cps = frac_cps(cps_of(run.regs[target]))
-            scale = max([abs(float(p[1])) for dd in cps for p in dd] + [1.0])
+            scale = max([abs(float(p[1])) for dd in cps for p in dd] + [1.0, hs])
             for t, v in zip(pts, ans):
                 got = evalpl(depth_fn(cps, k), t)
                 if (got != v) if exact else abs(float(got) - float(v)) > TOL * scale:
@@ -1164,7 +1431,7 @@ def process(ctx, runs):
             target, k = extra
             exact = run.reg_exact[target]
             vals = np.asarray(run.regs[target].values, dtype=float).tolist()
-            scale = max([abs(x) for row in vals for x in row] + [1.0])
+            scale = max([abs(x) for row in vals for x in row] + [1.0, hs])
             for j, v in enumerate(ans):
                 got = gval(vals, k, j)
                 if (Fr(got) != v) if exact else abs(got - float(v)) > TOL * scale:
@@ -1209,6 +1476,7 @@ def deep_search(ctx, run):
                 continue
             if expected_rejection_exact(op, regs) is None and all(finite_landscape(p) for p in regs + [res]):
                 bad = pointwise_exact(op, [cps_of(p) for p in regs], cps_of(res), run.op_exact[i], cap=10 ** 9)
+                bad = known_filter(ctx, op, [cps_of(p) for p in regs], cps_of(res), run.op_exact[i], bad)
                 if bad:
                     ctx.violation("pointwise law fails on the real code at %r (found after a code/model disagreement)" % (bad,),
                                   {"history": jsonable_hist(hist), "failure": {"op": op, "at": bad}}, found_input=True,
@@ -1259,14 +1527,17 @@ CORPUS = [
 
 def run(ctx):
     r = ctx.rng
+    corethm.record(ctx, CORE_THEOREMS, ["PersimVerif/Props/C09.lean"])
     ctx.extra["anchored_digest"] = _digest()
     n = ctx.n(500, 14000)
     if ANCHOR_DIGEST is not None and ctx.extra["anchored_digest"] != ANCHOR_DIGEST and not ctx.thorough:
         n = 1500            # the anchored functions were rewritten: explore harder (DESIGN 3.2)
         ctx.count("digest_changed")
-    hists = list(CORPUS)
+    known_replay(ctx)
+    hists = list(CORPUS) + [KNOWN_HIST]
     for _ in range(n):
-        hists.append(gen_exact_history(ctx) if r.random() < 0.55 else gen_grid_history(ctx))
+        u = r.random()
+        hists.append(gen_exact_history(ctx, nonzero_ends=u < 0.1) if u < 0.55 else gen_grid_history(ctx))
     batch = []
     cov = common.LineCov(E_FILES)
     for hi, hist in enumerate(hists):
@@ -1277,16 +1548,37 @@ def run(ctx):
             runx = run_history(hist)
         if runx.leaf_error is not None:
             ctx.count("leaf_rejected:" + runx.leaf_error)
+            if runx.leaf_error == "placeholder-values":
+                placeholder_violation(ctx, hist)
+                if len(ctx.violations) > 5:
+                    break
             continue
         nontrivial = any(o[0] == "ok" and op[0] in ("add", "sub", "snap", "lc", "avg") for op, o in zip(runx.ops, runx.outcomes))
         ctx.case({"cls": hist["cls"], "leaves": hist["leaves"], "ops": runx.ops}, nontrivial, sample_every=61)
         ctx.count("histories:" + hist["cls"] + (":exact-arith" if hist["exact"] else ":tolerance"))
+        if hist.get("nonzero_ends"):
+            ctx.count("histories:exact:hand-made critical points with non-zero end ordinates")
         ctx.count("history_len:%d" % len(runx.ops))
+        if runx.outside:
+            ctx.count("history_cut:outside_model:" + runx.outside)
+        if runx.lazy_leaves:
+            ctx.count("leaf:compute=False(lazy)", runx.lazy_leaves)
+        for op in runx.ops:
+            if op[0] in ("mul", "rmul", "div") and isinstance(op[2], dict) and "np" in op[2]:
+                ctx.count("scalar:np.%s:%s:%s" % (op[2]["np"], hist["cls"], op[0]))
         ctx.test("operands_untouched", runx.untouched)
         if runx.shared:
             ctx.count("result_shares_operand_depth_lists", runx.shared)
         if hist["cls"] == "exact":
             classify_leaves(ctx, runx)
+        else:
+            for spec, pl in zip(hist["leaves"], runx.regs):
+                if spec["kind"] == "gdgm":
+                    v = np.asarray(pl.values)
+                    zero_row = v.shape[0] == 1 and not v.any()
+                    ctx.count("leaf:grid_from_diagram:" + ("one_zero_row(no visible bar)" if zero_row else "visible_bars"))
+                    if zero_row:
+                        ctx.test("grid_landscape_without_visible_bar_is_zero_function", True)
         if not runx.untouched:
             ctx.violation("an operand changed during operation %s of a %s history (byte comparison of every live landscape "
                           "before/after each operation and of the leaves at the end)" % (runx.touched_at, hist["cls"]),
@@ -1353,6 +1645,10 @@ def replay(ctx, rep):
     runx = run_history(hist)
     print("outcomes:", [o[0] if o[0] == "ok" else o[1] for o in runx.outcomes])
     print("operands untouched:", runx.untouched)
+    if runx.leaf_error == "placeholder-values":
+        print("a grid landscape built from a diagram has non-numeric values (no bar visible on the grid): "
+              "it must be the zero function with one zero row")
+        return False
     if runx.leaf_error is not None:
         print("leaf rejected by the constructor:", runx.leaf_error)
         return True
@@ -1365,7 +1661,8 @@ def replay(ctx, rep):
 
 
 MANIFEST = {
-    "text": "Proof: 34 Lean theorems about the model of the landscape operators over any linear ordered field. For depth lists in the "
+    "text": "Proof: 36 Lean theorems, of which 27 core (the rest: helpers, bridges between guards, definitional restatements, three "
+            "concrete counterexamples), about the model of the landscape operators over any linear ordered field. For depth lists in the "
             "class the constructors produce (non-empty, zero end ordinates, non-decreasing abscissae where a zero-width step repeats "
             "the same point - so zero-length bars are included) the merged-slope sum evaluates to the pointwise sum at every real t "
             "and stays in the class (hinge representation: sum_slopes is additive for every pair of slope lists, evalPL of a "
@@ -1378,11 +1675,23 @@ MANIFEST = {
             "of the re-sampled values; average_approx is lc with 1/n, i.e. the mean. The model is tied to the code on every run by "
             "replaying generated histories (0-12 operations on shared operands, results reused) of the real operators at Rat from "
             "the leaves: breakpoint lists exactly, ordinates/samples exactly on dyadic histories and within 1e-9 otherwise, error "
-            "kinds exactly; and the statement's laws are evaluated on the real code alone with exact rationals.",
-    "note": "Trusted: Lean kernel + Mathlib, axioms propext/Classical.choice/Quot.sound; the correspondence harness; np.interp/np.linspace/"
+            "kinds exactly; and the statement's laws are evaluated on the real code alone with exact rationals. "
+            "NOT covered, and violated by the code: the part 'arbitrary critical points' of the quantifier. For hand-made critical points "
+            "whose first or last ordinate is not 0 (outside the guard wfDepth) exact + and - lose the end ordinates, because the slope "
+            "representation restarts at 0 and continues with slope 0; this is the theorem pair nonzero_start_counterexample / "
+            "nonzero_last_counterexample about the model of the current code (so the guard of sum_eval is necessary), it is listed as "
+            "a known finding, its listed input is replayed on every run (KNOWN-FINDING line while it fails) and failures of + / - on "
+            "generated inputs of that class are attributed to it only when the result is exactly what the slope representation keeps "
+            "(an independent description of the defect); any other failure is a VIOLATION. Grid landscapes on which no bar is visible "
+            "(one zero row) are generated on purpose and take part in every operation as the zero function.",
+    "note": "Trusted: Lean kernel + Mathlib, axioms propext/Classical.choice/Quot.sound; the correspondence harness and the compiled driver "
+            "executable (compiled by Lean's compiler, not checked by the kernel); np.interp/np.linspace/"
             "np.pad/np.sum(object array) semantics as modelled. [T] only: 'operands observably unchanged' (byte comparison of every "
             "attribute of every live landscape and of the argument lists around every operation and at the end of every history; "
-            "aliasing is invisible to a functional model, see also C19) and float rounding. Observation, counted "
+            "aliasing is invisible to a functional model, see also C19; for leaves built with compute=False the represented function is "
+            "compared instead of the cache attributes critical_pairs/max_depth, which the first operation fills) and float rounding "
+            "(tolerance 1e-9 relative to the largest magnitude occurring anywhere in the history, because the model replays the whole "
+            "history exactly). Observation, counted "
             "(result_shares_operand_depth_lists) and not failed: exact +/- put the deeper operand's own depth lists into the result "
             "(union_crit_pairs), so a user's in-place edit of the result would change the operand; no operation of the property does that. "
             "Regression: /repo 9ea345a (zero-width segments) has the theorem old_posToSlope_counterexample and a corpus case.",
